@@ -8,6 +8,7 @@ import (
 	"sort"
 	"strconv"
 	"strings"
+	"verifcheck/internal/core"
 
 	"golang.org/x/tools/go/ssa"
 
@@ -16,8 +17,8 @@ import (
 
 func init() {
 	Register(&Spec{
-		ID: "C01",
-		Explanation: "Decides a discipline-based necessary condition of memory safety of the read path, exhaustively over sites: (R1) Segment.data is indexed or sliced only inside the small kernel (slice, alloc, the two list-copy sites) and replaced only by alloc/setSegment; (R2) calls of the ...Unchecked arithmetic helpers occur only at the listed justified sites; (R3) the ok/err companion of every checked helper (addSize, element, times, resolve, totalListSize, dataAddress, primitiveElem, regionInBounds, lookupSegment, Message.Segment, canRead ...) reaches a branch that dominates every use of the paired value, blank-ignored only at listed sites; (R4) every call of a raw segment accessor (slice, read/writeUintN, read/writeRawPointer) has an address whose provenance is one of the enumerated justified forms (dominating regionInBounds on the same segment with constant offset+width inside the region, dataAddress/primitiveElem with the companion tested and the width within the requested size, pointerAddress under i < PointerCount, bit offset under bitInData, an object's own off/size pair, a fresh allocation, or a pointer-slot parameter whose callers are then obliged); (R5) Struct/List/Ptr values with a segment are constructed only in the listed functions, and the three readers construct them under a dominating regionInBounds on the constructed offset; (R6) the arithmetic and bounds kernel has the normal form recorded when the lemma was confirmed; (R7) the explicit panics reachable from the read API are the enumerated programmer-error ones. Does NOT decide numeric correctness of extents beyond these guards, panics inside the standard library, memory growth or blocking readers.",
+		ID:           "C01",
+		Explanation:  "Decides a discipline-based necessary condition of memory safety of the read path, exhaustively over sites: (R1) Segment.data is indexed or sliced only inside the small kernel (slice, alloc, the two list-copy sites) and replaced only by alloc/setSegment; (R2) calls of the ...Unchecked arithmetic helpers occur only at the listed justified sites; (R3) the ok/err companion of every checked helper (addSize, element, times, resolve, totalListSize, dataAddress, primitiveElem, regionInBounds, lookupSegment, Message.Segment, canRead ...) reaches a branch that dominates every use of the paired value, blank-ignored only at listed sites; (R4) every call of a raw segment accessor (slice, read/writeUintN, read/writeRawPointer) has an address whose provenance is one of the enumerated justified forms (dominating regionInBounds on the same segment with constant offset+width inside the region, dataAddress/primitiveElem with the companion tested and the width within the requested size, pointerAddress under i < PointerCount, bit offset under bitInData, an object's own off/size pair, a fresh allocation, or a pointer-slot parameter whose callers are then obliged); (R5) Struct/List/Ptr values with a segment are constructed only in the listed functions, and the three readers construct them under a dominating regionInBounds on the constructed offset; (R6) the arithmetic and bounds kernel has the normal form recorded when the lemma was confirmed; (R7) the explicit panics reachable from the read API are the enumerated programmer-error ones. Does NOT decide numeric correctness of extents beyond these guards, panics inside the standard library, memory growth or blocking readers.",
 		ExtraConfigs: true,
 		Run:          runC01,
 	})
@@ -117,12 +118,21 @@ func ruleDataConfinement(ctx *Ctx, rule string) {
 // R2
 
 var uncheckedSites = map[string]string{
-	"capnp.(*Segment).slice | addSizeUnchecked":           "slice is the choke point; its callers are judged by R4",
-	"capnp.(*Segment).writePtr | addSizeUnchecked":        "second word of a 16-byte landing pad just allocated",
-	"capnp.NewCompositeList | addSizeUnchecked":           "first element of a freshly allocated wordSize+total region",
-	"capnp.newPrimitiveList | timesUnchecked":             "sz in [0,8], n in [0,1<<29) checked just above",
-	"capnp.(rawPointer).structSize | timesUnchecked":      "wordSize * uint16 cannot overflow",
-	"capnp.(rawPointer).totalListSize | timesUnchecked":   "element size <= 8 and count < 1<<29",
+	"capnp.(*Segment).slice | addSizeUnchecked":         "slice is the choke point; its callers are judged by R4",
+	"capnp.(*Segment).writePtr | addSizeUnchecked":      "second word of a 16-byte landing pad just allocated",
+	"capnp.NewCompositeList | addSizeUnchecked":         "first element of a freshly allocated wordSize+total region",
+	"capnp.newPrimitiveList | timesUnchecked":           "sz in [0,8], n in [0,1<<29) checked just above",
+	"capnp.(rawPointer).structSize | timesUnchecked":    "wordSize * uint16 cannot overflow",
+	"capnp.(rawPointer).totalListSize | timesUnchecked": "element size <= 8 and count < 1<<29",
+}
+
+func allListed(owners []string, short string) bool {
+	for _, o := range owners {
+		if _, ok := uncheckedSites[o+" | "+short]; !ok {
+			return false
+		}
+	}
+	return len(owners) > 0
 }
 
 func ruleUncheckedSites(ctx *Ctx, rule string) {
@@ -146,6 +156,8 @@ func ruleUncheckedSites(ctx *Ctx, rule string) {
 				}
 				if why, ok := uncheckedSites[key]; ok {
 					r.Ok(rule, full, q.Pos(ssaq.InstrPos(in)), "listed justified site: "+why)
+				} else if owners, ok := q.Attributed(f); ok && ssaq.IsNew(f) && allListed(owners, short) {
+					r.Ok(rule, full, q.Pos(ssaq.InstrPos(in)), "listed justified site of "+strings.Join(owners, ", ")+", moved into a helper that did not exist on the reference tree")
 				} else {
 					r.Violation(rule, full, q.Pos(ssaq.InstrPos(in)), "an unchecked address/size helper is used at a site that has no recorded justification: wrap-around would go unnoticed")
 				}
@@ -187,17 +199,17 @@ var checkedPredicates = map[string]bool{
 
 // ignoredCompanion lists the sites that may drop the companion.
 var ignoredCompanion = map[string]string{
-	"capnp.(Struct).pointerAddress | addSize":  "'Struct already had bounds check': off+DataSize lies inside the validated struct",
-	"capnp.(Struct).pointerAddress | element":  "i < PointerCount is the callers' obligation (R4 pointerAddress form); the struct was validated",
-	"capnp.copyStruct | addSize":               "pointer sections of two validated structs",
-	"capnp.copyStruct | element":               "j < PointerCount of a validated struct",
-	"capnp.(List).allocSize | times":           "'size has already been validated' when the list was read or created",
-	"capnp.(*Segment).writePtr | addSize":      "'list was already validated': end of a validated list",
-	"capnp.canonicalList | addSize":            "'list was already validated': end of a validated list",
-	"capnp.Equal | times":                      "'both list bounds have been validated' and the lengths and sizes were compared equal",
-	"capnp.(*Segment).writePtr | alloc":        "landing pad allocation is guarded by hasCapacity(src.seg.data, wordSize) on that branch",
-	"capnp.Canonicalize | NewMessage":          "a fresh single-segment arena cannot fail",
-	"capnp.Transform | readPtr":                "n/a",
+	"capnp.(Struct).pointerAddress | addSize": "'Struct already had bounds check': off+DataSize lies inside the validated struct",
+	"capnp.(Struct).pointerAddress | element": "i < PointerCount is the callers' obligation (R4 pointerAddress form); the struct was validated",
+	"capnp.copyStruct | addSize":              "pointer sections of two validated structs",
+	"capnp.copyStruct | element":              "j < PointerCount of a validated struct",
+	"capnp.(List).allocSize | times":          "'size has already been validated' when the list was read or created",
+	"capnp.(*Segment).writePtr | addSize":     "'list was already validated': end of a validated list",
+	"capnp.canonicalList | addSize":           "'list was already validated': end of a validated list",
+	"capnp.Equal | times":                     "'both list bounds have been validated' and the lengths and sizes were compared equal",
+	"capnp.(*Segment).writePtr | alloc":       "landing pad allocation is guarded by hasCapacity(src.seg.data, wordSize) on that branch",
+	"capnp.Canonicalize | NewMessage":         "a fresh single-segment arena cannot fail",
+	"capnp.Transform | readPtr":               "n/a",
 }
 
 func ruleCheckedResults(ctx *Ctx, rule string) {
@@ -399,23 +411,49 @@ var slotParamFuncs = map[string]int{ // function -> index of the address paramet
 	"capnp.(*Segment).writeRawPointer":   1,
 }
 
-// Named justifications for sites that none of the generic forms covers.
-var accessExempt = map[string]string{
-	"capnp.(*Segment).readListPtr | readRawPointer #1":  "tag word of a composite list: the region of totalListSize() = 8*(n+1) >= 8 bytes at this address was just checked",
-	"capnp.(*Segment).writePtr | readRawPointer #1":     "l.off-8 is the tag word of a composite list that was validated together with its tag when it was read or created (flag isCompositeList)",
-	"capnp.(*Segment).writePtr | writeRawPointer #3":    "first word of the list just allocated with allocSize() bytes (includes the tag word)",
-	"capnp.NewCompositeList | writeRawPointer #1":       "tag word at the start of the wordSize+total bytes just allocated",
-	"capnp.NewText | slice #1":                          "len(v) bytes of the len(v)+1 bytes just allocated by NewUInt8List",
-	"capnp.NewTextFromBytes | slice #1":                 "len(v) bytes of the len(v)+1 bytes just allocated",
-	"capnp.NewData | slice #1":                          "len(v) bytes just allocated by NewUInt8List",
-	"capnp.canonicalStructSize | readRawPointer #1":     "pointerAddress(i) for i counting down from PointerCount-1 of a validated struct",
-	"capnp.copyStruct | writeRawPointer #1":             "destination pointer j in [numSrcPtrs, numDstPtrs) of the destination struct",
-	"capnp.copyStruct | readPtr #1":                     "source pointer j < numSrcPtrs of a validated struct (pointer section start + 8j)",
-	"capnp.copyStruct | writePtr #1":                    "destination pointer j < numDstPtrs of a validated struct (pointer section start + 8j)",
-	"capnp.(BitList).At | readUint8 #1":                 "bit i < length of a bit list: byte i/8 < bitListSize(length), the extent validated by readListPtr",
-	"capnp.(BitList).Set | slice #1":                    "bit i < length of a bit list allocated with bitListSize(length) bytes",
-	"capnp.Equal | slice #3":                            "data-only lists with equal length and element size: sz = size*length of validated lists",
-	"capnp.Equal | slice #4":                            "same extent as its sibling, equal length and element size were established above",
+// Named justifications for sites that none of the generic forms covers, keyed by
+// function, accessor and the rendered address (not by position or ordinal).
+var accessExemptByContent = map[string]string{
+	"capnp.copyStruct | writeRawPointer(element(addSize(p0.off, p0.size.DataSize)#0, int32(phi), 8:Size)#0)": "destination pointer j in [numSrcPtrs, numDstPtrs) of the destination struct",
+	"capnp.canonicalStructSize | readRawPointer(pointerAddress(p0, uint16(phi)))":                            "pointerAddress(i) for i counting down from PointerCount-1 of a validated struct",
+	"capnp.Equal | slice(l1.off)": "data-only lists with equal length and element size: sz = size*length of validated lists",
+	"capnp.Equal | slice(l2.off)": "same extent as its sibling, equal length and element size were established above",
+	"capnp.NewCompositeList | writeRawPointer(alloc(p0, (8:Size + times(totalSize(p1), p2)#0))#1)":    "tag word at the start of the wordSize+total bytes just allocated",
+	"capnp.(BitList).At | readUint8(addOffset(p0.List.off, offset(BitOffset(p1))))":                   "bit i < length of a bit list: byte i/8 < bitListSize(length), the extent validated by readListPtr",
+	"capnp.(BitList).Set | slice(addOffset(p0.List.off, offset(BitOffset(p1))))":                      "bit i < length of a bit list allocated with bitListSize(length) bytes",
+	"capnp.NewText | slice(l.List.off)":                                                               "len(v) bytes of the len(v)+1 bytes just allocated by NewUInt8List",
+	"capnp.NewTextFromBytes | slice(l.List.off)":                                                      "len(v) bytes of the len(v)+1 bytes just allocated",
+	"capnp.NewData | slice(l.List.off)":                                                               "len(v) bytes just allocated by NewUInt8List",
+	"capnp.(*Segment).readListPtr | readRawPointer(resolve(offset(p2), p1)#0)":                        "tag word of a composite list: the region of totalListSize() = 8*(n+1) >= 8 bytes at this address was just checked",
+	"capnp.(*Segment).writePtr | readRawPointer((l.off - 8:address))":                                 "l.off-8 is the tag word of a composite list that was validated together with its tag when it was read or created (flag isCompositeList)",
+	"capnp.(*Segment).writePtr | writeRawPointer(alloc(p0, allocSize(l))#1)":                          "first word of the list just allocated with allocSize() bytes (includes the tag word)",
+	"capnp.copyStruct | readPtr(element(addSize(p1.off, p1.size.DataSize)#0, int32(phi), 8:Size)#0)":  "source pointer j < numSrcPtrs of a validated struct (pointer section start + 8j)",
+	"capnp.copyStruct | writePtr(element(addSize(p0.off, p0.size.DataSize)#0, int32(phi), 8:Size)#0)": "destination pointer j < numDstPtrs of a validated struct (pointer section start + 8j)",
+}
+
+func addrHead(a string) string {
+	if i := strings.Index(a, "("); i > 0 {
+		return a[:i]
+	}
+	return ""
+}
+
+func looseExempt(fname, acc, addr string) (string, bool) {
+	h := addrHead(addr)
+	if h == "" {
+		return "", false
+	}
+	pre := fname + " | " + acc + "("
+	for k, why := range accessExemptByContent {
+		if strings.HasPrefix(k, pre) && addrHead(strings.TrimSuffix(strings.TrimPrefix(k, pre), ")")) == h {
+			// the result selector (#0/#1) must agree as well
+			if strings.HasSuffix(strings.TrimSuffix(k, ")"), "#1") != strings.HasSuffix(addr, "#1") {
+				continue
+			}
+			return why, true
+		}
+	}
+	return "", false
 }
 
 var reAlloc = regexp.MustCompile(`^(addSizeUnchecked\()?(alloc\(.*\))#1(?:, (\d+):Size\))?$`)
@@ -472,19 +510,61 @@ func ruleGuardedAccess(ctx *Ctx, rule string) {
 	}
 	collect(rawAccessors, func(string) int { return 1 })
 	slotCallees := map[string]int{"capnp.(*Segment).readPtr": 1, "capnp.(*Segment).resolveFarPointer": 1, "capnp.(*Segment).writePtr": 1}
+	slotParams := map[string]int{}
+	for k, v := range slotParamFuncs {
+		slotParams[k] = v
+	}
+	// A helper that did not exist on the reference tree and applies a raw
+	// accessor (or a slot function) to one of its own address parameters is a
+	// slot function itself: the obligation moves to its call sites.
+	for round := 0; round < 2; round++ {
+		for _, f := range q.FuncsIn("") {
+			if !ssaq.IsNew(f) || f.Parent() != nil {
+				continue
+			}
+			fname := ssaq.FuncName(f)
+			for _, b := range f.Blocks {
+				for _, in := range b.Instrs {
+					ci, ok := in.(ssa.CallInstruction)
+					if !ok {
+						continue
+					}
+					cn := ssaq.StaticCalleeName(in)
+					idx := -1
+					if _, isAcc := rawAccessors[cn]; isAcc {
+						idx = 1
+					} else if i, isSlot := slotCallees[cn]; isSlot {
+						idx = i
+					}
+					if idx < 0 || idx >= len(ci.Common().Args) {
+						continue
+					}
+					if p, ok := ci.Common().Args[idx].(*ssa.Parameter); ok {
+						for i, fp := range f.Params {
+							if fp == p {
+								slotParams[fname] = i
+								slotCallees[fname] = i
+							}
+						}
+					}
+				}
+			}
+		}
+	}
 	collect(slotCallees, func(cn string) int { return slotCallees[cn] })
 
 	for _, s := range sites {
 		fname := ssaq.FuncName(s.f)
 		key := fmt.Sprintf("%s | %s #%d", fname, s.name, s.ord)
 		pos := q.Pos(ssaq.InstrPos(s.call))
-		if why, ok := accessExempt[key]; ok {
+		ckey := fmt.Sprintf("%s | %s(%s)", fname, s.name, ssaq.RenderValue(s.f, s.addr))
+		if why, ok := accessExemptByContent[ckey]; ok {
 			r.Exempt(rule, key, pos, why)
 			continue
 		}
 		why := classifyAccess(s.f, s.call, s.seg, s.addr, s.w, s.wArg)
 		if strings.HasPrefix(why, "param:") {
-			if _, ok := slotParamFuncs[fname]; ok {
+			if _, ok := slotParams[fname]; ok {
 				pending[fname] = true
 				r.Ok(rule, key, pos, "address is this function's pointer-slot/address parameter: the obligation is discharged at every call site of "+fname)
 				continue
@@ -493,6 +573,12 @@ func ruleGuardedAccess(ctx *Ctx, rule string) {
 		}
 		if why != "" {
 			r.Ok(rule, key, pos, why)
+		} else if lw, ok := looseExempt(fname, s.name, ssaq.RenderValue(s.f, s.addr)); ok {
+			// the same accessor applied to an address built by the same function
+			// (pointerAddress(...), element(...), alloc(...)#1) as a named
+			// exemption: an index expression rewritten inside it (i -> n-1)
+			// keeps the justification
+			r.Exempt(rule, key, pos, lw+" (matched on the address constructor)")
 		} else {
 			r.Violation(rule, key, pos, fmt.Sprintf("raw segment access %s(%s) has no recognised justification: address %s is not covered by a dominating bounds guard on this segment (guards: %s)",
 				s.name, ssaq.RenderValue(s.f, s.seg), ssaq.RenderValue(s.f, s.addr), strings.Join(ssaq.DomAtoms(s.call), " && ")))
@@ -676,7 +762,7 @@ func ruleConstructionSites(ctx *Ctx, rule string) {
 					continue
 				}
 				fld := ssaq.FieldVar(fa)
-				if fld == nil || fld.Name() != "seg" {
+				if fld == nil || core.FieldName(fld) != "seg" {
 					continue
 				}
 				owner := ""
@@ -701,7 +787,7 @@ func ruleConstructionSites(ctx *Ctx, rule string) {
 					off := ""
 					for _, in2 := range b.Instrs {
 						if st2, ok := in2.(*ssa.Store); ok {
-							if fa2, ok := st2.Addr.(*ssa.FieldAddr); ok && fa2.X == fa.X && ssaq.FieldVar(fa2).Name() == "off" {
+							if fa2, ok := st2.Addr.(*ssa.FieldAddr); ok && fa2.X == fa.X && core.FieldName(ssaq.FieldVar(fa2)) == "off" {
 								off = ssaq.RenderValue(f, st2.Val)
 							}
 						}
